@@ -102,7 +102,7 @@ def _(c):
 
 
 OPS = ["copy", "copy_form", "copy_frame", "copy_same", "set_element", "set_meta", "set_maneuvers", "set_cov", "form_setter", "frame_setter", "bad_form", "bad_frame",
-       "pickle", "as_orbit", "as_statevector", "mutate_cov", "mutate_maneuver_list"]
+       "pickle", "as_orbit", "as_statevector", "mutate_cov", "mutate_maneuver_list", "form_call"]
 
 
 def _grid_seq(tier, rng):
@@ -244,6 +244,15 @@ def _(c):
                     new = tgt.as_statevector()
                     sn = _snap(new)
                     ok_meta = ok_meta and {x: sn[x] for x in sn if x != "type"} == {x: before[k][x] for x in before[k] if x != "type"} and sn["type"] == "StateVector" and _behaves_like(new, tgt)
+            elif op == "form_call":
+                # the conversion function itself (orb.form(orb, X)): "gives the result of the transformation without in-place modifications" -- whatever is done to
+                # what it returns (the current form included) never shows in the receiver
+                res_ = tgt.form(tgt, forms[a % len(forms)] if a % 3 else tgt.form.name)
+                try:
+                    res_[0] = float(res_[0]) * 2 + 1.0
+                    res_[5] = -float(res_[5])
+                except Exception:
+                    pass
             elif op == "mutate_cov":
                 if tgt._data.get("cov") is not None:
                     mutates = True
